@@ -19,6 +19,12 @@ Proof. vm_compute. reflexivity. Qed.
 Lemma all_data_ok : table_ok CGlobal shared_methods = true /\ table_ok CArg disjoint_methods = true.
 Proof. split; vm_compute; reflexivity. Qed.
 
+Lemma singletons_ok : singleton_ok shared_singleton = true /\ singleton_ok disjoint_singleton = true.
+Proof. split; vm_compute; reflexivity. Qed.
+
+Lemma store_identity n : replaces shared_singleton (Some n) = false /\ replaces disjoint_singleton (Some n) = false.
+Proof. destruct singletons_ok as [A B]. split; apply singleton_identity; assumption. Qed.
+
 Lemma method_lock_ok m : In m (map snd all_methods) -> lock_ok m = true.
 Proof.
   intro H. apply in_map_iff in H as [[name m'] [E Hin]]. simpl in E. subst m'.
@@ -192,4 +198,12 @@ Lemma raising_outside_try_example :
   out_of (run AllFaults tidy_del_graph [true; true]) = ORaise /\
   map ev_code (evs_of (run AllFaults tidy_del_graph [true; true])) = [(1, 1); (2, 0); (3, 0); (4, 0)] /\
   balanced (evs_of (run AllFaults tidy_del_graph [true; true])) = false.
+Proof. vm_compute. repeat split. Qed.
+
+(* the singleton guard `if not X.storage_instance:` stops being an identity test as soon as the inner class
+   defines __len__ (or __bool__): an EMPTY store is then replaced by every new importer / topology *)
+Lemma singleton_shape_example :
+  singleton_ok (mkSing GTruthy false false) = true /\ singleton_ok (mkSing GIsNone true true) = true /\
+  singleton_ok (mkSing GTruthy true false) = false /\ singleton_witness (mkSing GTruthy true false) = Some 0 /\
+  replaces (mkSing GTruthy true false) (Some 0) = true /\ replaces (mkSing GTruthy true false) (Some 3) = false.
 Proof. vm_compute. repeat split. Qed.
